@@ -426,6 +426,19 @@ func init() {
 						c15Check(c15Case{Relation: "variants-window", Base: base, Opt: o, Feats: l.Feats}, res)
 						res.States++
 					})
+					if li%2 == 0 {
+						for _, w := range [][2]int{{0, 7}, {1, 0}, {2, 5}, {0, len(g)}} {
+							o := base
+							o.Start, o.End = w[0], w[1]
+							ob, _ := o.CLI(nil, 0)
+							oc := o.Canon()
+							res.Evals++
+							res.Validated++
+							if ob.String() != oc.String() {
+								res.Violate("variants-window:binary-differs", fmt.Sprintf("variants (alignment with insertions before base 1 and after base L): real binary with --start %d --end %d gives %s; in-process %s", w[0], w[1], ob.String(), oc.String()), c15Case{Relation: "variants-window", Base: o, Opt: o, Feats: l.Feats})
+							}
+						}
+					}
 				}
 				// the same relation through the real binary's flag layer, for a few windows
 				if li%2 == engine.Seed()%2 {
@@ -468,6 +481,20 @@ func init() {
 						c15Check(c15Case{Relation: "variants-window", Base: base, Opt: o, Feats: feats}, res)
 						res.States++
 					})
+					// the same windows through the real binary's flag layer (each bound alone and both)
+					for _, w := range [][2]int{{5, 0}, {0, 7}, {4, 11}, {1, 0}, {0, 18}} {
+						for _, agg := range []bool{false, true} {
+							o := base
+							o.Start, o.End, o.Aggregate = w[0], w[1], agg
+							ob, _ := o.CLI(nil, 0)
+							oc := o.Canon()
+							res.Evals++
+							res.Validated++
+							if ob.String() != oc.String() {
+								res.Violate("variants-window:binary-differs", fmt.Sprintf("sam variants: real binary with --start %d --end %d aggregate=%v gives %s; the entry point called in-process gives %s", w[0], w[1], agg, ob.String(), oc.String()), c15Case{Relation: "variants-window", Base: o, Opt: o, Feats: feats})
+							}
+						}
+					}
 				}
 			case "legacy":
 				for fi, recs := range c01Files(6) {
@@ -485,6 +512,11 @@ func init() {
 							}
 							c15Legacy(c15Case{Relation: "legacy-trim-flags", Base: base, Opt: o, Legacy: leg}, res)
 							res.States++
+							if (s+e)%3 == 0 {
+								// the legacy coordinates are honoured with or without the legacy on-switch
+								c15Legacy(c15Case{Relation: "legacy-trim-flags", Base: base, Opt: o, Legacy: leg[1:]}, res)
+								res.States++
+							}
 						})
 					}
 					// mixing the two families must be refused
